@@ -52,3 +52,49 @@ package rwc
 //@   assert at call Put: sliceobj(pk) != sliceobj(pkt) && len(pk) >= pl ==> content(pk)[0..pl] == content(pkt)
 //@   assert at call Put: sliceobj(pk) != sliceobj(pkt) && len(pk) < pl ==> content(pk) == content(pkt)[0..len(pk)]
 //@   ensures 0 <= n && n <= len(pk)
+
+// ---- C09: the buffered stream connection neither loses nor reorders bytes ----
+//@ func (*Conn).getArenaBuf
+//@   noframe
+//@   nosweep nil-deref type-assert
+//@   requires size >= 0
+//@   ensures size != 0 ==> len(ret) == size && ret != nil
+
+// rxPump, per iteration: one Read of the underlying stream; the bytes it returned (if any) are
+// offered as one chunk - exactly the next unread bytes, also when the Read reported an error with
+// them - and only then is the error acted on.
+// (the deferred closure stores the result as the close error and closes the queue)
+//@ func (*Conn).rxPump$1
+//@   inline
+
+//@ func (*Conn).rxPump
+//@   noframe
+//@   nosweep nil-deref
+//@   assert at call invoke.Read: true
+//@   assert at send: 1 <= len(sent) && rdpos[p.rwc] == atcall(invoke.Read, rdpos[recv]) + len(sent)
+//@   assert at send: forall i int trigger sent[i] :: 0 <= i && i < len(sent) ==> sent[i] == rddata(p.rwc, atcall(invoke.Read, rdpos[recv]) + i)
+//@   assert at call Put: n == 0
+// bytes that a Read returned are offered before its error ends the pump (unless the pump was cancelled)
+//@   assert at exit: rerr != context.Canceled && n > 0 ==> chanSent[p.packetCh] == atcall(invoke.Read, chanSent[p.packetCh]) + 1
+
+// Read hands over one queued chunk: all of it when it fits, else the part that fits together with
+// io.ErrShortBuffer; a closed queue is reported as the stored error or io.EOF.
+//@ func (*Conn).Read
+//@   noframe
+//@   nosweep nil-deref
+//@   assert at call Put: pl == len(pkt)
+//@   assert at exit: ok && len(b) < pl ==> err == io.ErrShortBuffer && n == len(b)
+//@   assert at exit: ok && len(b) >= pl ==> err == nil && n == pl
+//@   assert at call Put: sliceobj(b) != sliceobj(pkt) && len(b) >= pl ==> content(b)[0..pl] == content(pkt)
+//@   assert at call Put: sliceobj(b) != sliceobj(pkt) && len(b) < pl ==> content(b) == content(pkt)[0..len(b)]
+//@   assert at exit: !ok ==> n == 0
+//@   ensures 0 <= n && n <= len(b)
+
+// Write passes all of pkt to the stream, in order, retrying after partial writes.
+//@ func (*Conn).Write
+//@   noframe
+//@   nosweep nil-deref
+//@   loop 1 invariant 0 <= written && written <= len(pkt) && wrpos[p.rwc] == old(wrpos[p.rwc]) + written
+//@   loop 1 invariant forall k int trigger wrdata(p.rwc, k) :: old(wrpos[p.rwc]) <= k && k < old(wrpos[p.rwc]) + written ==> wrdata(p.rwc, k) == old(pkt[k - wrpos[p.rwc]])
+//@   ensures err == nil ==> n == len(pkt) && wrpos[p.rwc] == old(wrpos[p.rwc]) + len(pkt)
+//@   ensures err == nil ==> forall k int trigger wrdata(p.rwc, k) :: old(wrpos[p.rwc]) <= k && k < old(wrpos[p.rwc]) + len(pkt) ==> wrdata(p.rwc, k) == old(pkt[k - wrpos[p.rwc]])
